@@ -395,6 +395,17 @@ int main(int argc, char ** argv)
         }
       }
       cx.rep.counters["failure_recovery_sequences_total"] = fam;
+      // (a''') re-configuration family, enumerated completely: every ordered pair (A, B) of the valid configurations on ONE object -
+      // A ; initialize ; [shoot] ; reset ; B ; initialize ; shoot ; shoot - "after reset ... re-configuring it yields the same events as a fresh instance"
+      // (working data of A that reset() or the next initialize() fails to clear - a clamped window bound, a level energy, a table - shows in B's events)
+      uint64_t rec = 0;
+      for (auto & pa : pres) for (auto & pb : pres) for (int shootA = 0; shootA < 2; shootA++) {
+        uint64_t id = rec++; if ((id % nsh) != (uint64_t)shard) continue;
+        std::vector<int> seq = pa.calls; seq.push_back(INIT); if (shootA) seq.push_back(SHOOT); seq.push_back(RESET);
+        seq.insert(seq.end(), pb.calls.begin(), pb.calls.end()); seq.push_back(INIT); seq.push_back(SHOOT); seq.push_back(SHOOT);
+        eval(cx, seq);
+      }
+      cx.rep.counters["reconfiguration_sequences_total"] = rec;
     }
     // (b) rapidcheck: longer random sequences with whole-sequence shrinking
     uint64_t seed = a.i("seed", 1);
